@@ -24,14 +24,14 @@ static bool gen_run(Rng &r, Case &c, std::vector<av_t> &out, char forced = 0, co
     bool arith = n >= 2 && strchr("cih", t) && (from || unit || r.chance(0.5));
     if(arith) {
         av_t s = av::mk(t), d = av::mk(t);
-        if(t == 'c') { s.val.i = (int32_t)r.range(0x21, 0x60); d.val.i = r.chance(0.5) ? 1 : (int32_t)r.range(1, 3); }
+        if(t == 'c') { s.val.i = (int32_t)r.range(0x21, 0x60); d.val.i = r.chance(0.5) ? 1 : (int32_t)r.range(1, 3); if(r.chance(0.4)) { d.val.i = -d.val.i; s.val.i = (int32_t)r.range(0x50, 0x7e); } }
         else if(t == 'i') {
             s.val.i = (int32_t)r.range(-50, 50); d.val.i = (int32_t)r.range(-4, 4); if(!d.val.i) d.val.i = r.chance(0.5) ? 1 : -1;
             if(r.chance(0.08)) { s.val.i = r.chance(0.5) ? 0 : (int32_t)r.range(-1000, 1000); d.val.i = (int32_t)(r.chance(0.5) ? 1 : -1) * (int32_t)r.range(65536, 400000000); c.tags.push_back("large_step"); count("gen.large_step"); }
         } else {
             s.val.h = r.chance(0.3) ? 4294967290ll : r.range(-50, 50); d.val.h = r.range(-3, 3); if(!d.val.h) d.val.h = 1;
             // steps that do not fit 32 bits
-            if(r.chance(0.15)) { static const int64_t D[] = {2147483648ll, 3000000000ll, 4294967296ll, 4294967297ll, 8589934593ll, 1099511627776ll}; d.val.h = D[r.below(6)] * (r.chance(0.5) ? 1 : -1); if(r.chance(0.5)) s.val.h = 0; c.tags.push_back("large_step"); count("gen.large_step_64bit"); }
+            if(r.chance(0.15)) { static const int64_t D[] = {2147483648ll, 3000000000ll, 4294967296ll, 4294967297ll, 8589934593ll, 1099511627776ll, 4294967295ll, 8589934591ll, 4294967297ll}; d.val.h = D[r.below(9)] * (r.chance(0.5) ? 1 : -1); if(r.chance(0.5)) s.val.h = 0; c.tags.push_back("large_step"); count("gen.large_step_64bit"); }
         }
         // progressions whose span (last - first, last - second) sits on the edge of the type's range without any step wrapping
         if(!from && !unit && t != 'c' && n >= 5 && r.chance(0.12)) {
@@ -53,7 +53,7 @@ static bool gen_run(Rng &r, Case &c, std::vector<av_t> &out, char forced = 0, co
             c.tags.push_back("span_at_type_range"); count("gen.span_at_type_range");
         }
         if(from) s = *from;
-        if(unit) { if(t == 'h') d.val.h = r.chance(0.5) ? 1 : -1; else d.val.i = (t == 'c' || r.chance(0.5)) ? 1 : -1; if(t == 'c' && s.val.i > 0x70) s.val.i = 0x41; }
+        if(unit) { if(t == 'h') d.val.h = r.chance(0.5) ? 1 : -1; else d.val.i = r.chance(0.5) ? 1 : -1; if(t == 'c') { if(d.val.i > 0 && s.val.i > 0x70) s.val.i = 0x41; if(d.val.i < 0 && s.val.i < 0x30) s.val.i = 0x6a; } }
         for(int i = 0; i < n; ++i) { av_t v; av::step_value(s, d, i, v); if(t == 'c' && (v.val.i < 0x20 || v.val.i > 0x7e)) break; out.push_back(v); }
         return true;
     } else {
